@@ -20,10 +20,11 @@ const (
 	EndBudget                     // step / decision budget exhausted (unwinding assertion failed)
 	EndUnsupported                // the executor met something it cannot encode
 	EndStopped                    // stopped after violation (stopOnViolation)
+	EndCut                        // one iteration of a cut loop completed (inductive step)
 )
 
 func (k EndKind) String() string {
-	return [...]string{"ok", "assume", "infeasible", "panic", "budget", "unsupported", "stopped"}[k]
+	return [...]string{"ok", "assume", "infeasible", "panic", "budget", "unsupported", "stopped", "cut"}[k]
 }
 
 // pathAbort is the Go panic value used to unwind the interpreter when a path
